@@ -19,7 +19,8 @@ RoundRows == {[kind |-> "roundtrip", body |-> b, enc |-> e, cs |-> c, mode |-> m
              \cup {[kind |-> "roundtrip", body |-> b, enc |-> e, cs |-> c, mode |-> "given-noforce",
                     used |-> IF e = "utf-8-sig" THEN "utf-8" ELSE e] : b \in Bodies, e \in Encodings, c \in {"none", "same"}}
 \* cut sets: at most MaxCuts cuts within the first ChunkLen units, plus the two extreme schedules
-CutSets == {S \in SUBSET (1..(ChunkLen - 1)) : Cardinality(S) <= MaxCuts}
+\* a cut at 0 is an empty first chunk (nothing of the header has arrived yet: the object must not settle on an encoding)
+CutSets == {S \in SUBSET (0..(ChunkLen - 1)) : Cardinality(S) <= MaxCuts}
 ChunkRows == {[kind |-> "chunk", cls |-> k, enc |-> e, text |-> t, cuts |-> SetToSortSeq(S, <), every |-> FALSE] :
                   k \in {"incdec", "incenc", "reader", "writer"}, e \in Encodings \ {"ascii"},
                   t \in {"plain", "rule", "rulecut", "empty"}, S \in CutSets}
@@ -32,7 +33,17 @@ NoForceRows == {[kind |-> "chunk", cls |-> k, enc |-> e, text |-> t, cuts |-> Se
                   t \in {"plain", "rule"}, S \in CutSets}
                \cup {[kind |-> "chunk", cls |-> k, enc |-> e, text |-> t, cuts |-> <<>>, every |-> TRUE] :
                   k \in {"incdec-noforce", "reader-noforce"}, e \in {"utf-8-sig", "utf-16", "utf-32", "utf-8", "koi8-r"}, t \in {"plain", "rule"}}
-Rows == DetectRows \cup CharsetRows \cup RoundRows \cup ChunkRows \cup NoForceRows
+\* no encoding given at all: the object detects it (decoders: BOM, @charset rule or the byte pattern of a BOM-less wide encoding whose
+\* rule names something else; encoders: from the @charset rule of the text), however the input is cut
+AutoRows == {[kind |-> "chunk", cls |-> k, enc |-> e, text |-> t, cuts |-> SetToSortSeq(S, <), every |-> FALSE] :
+                  k \in {"incdec-auto", "reader-auto"}, e \in {"utf-16-le", "utf-16-be", "utf-32-le", "utf-32-be", "utf-8", "utf-8-sig", "utf-16", "utf-32", "iso-8859-1"},
+                  t \in {"plain", "rule", "rule-other"}, S \in CutSets}
+            \cup {[kind |-> "chunk", cls |-> k, enc |-> e, text |-> t, cuts |-> <<>>, every |-> TRUE] :
+                  k \in {"incdec-auto", "reader-auto"}, e \in {"utf-16-le", "utf-16-be", "utf-32-le", "utf-32-be", "utf-8", "utf-8-sig", "utf-16", "utf-32", "iso-8859-1"},
+                  t \in {"plain", "rule", "rule-other"}}
+            \cup {[kind |-> "chunk", cls |-> k, enc |-> e, text |-> t, cuts |-> SetToSortSeq(S, <), every |-> FALSE] :
+                  k \in {"incenc-auto", "writer-auto"}, e \in {"iso-8859-1", "koi8-r", "utf-16", "utf-32-be", "utf-8", "utf-8-sig"}, t \in {"plain", "rule"}, S \in CutSets}
+Rows == DetectRows \cup CharsetRows \cup RoundRows \cup ChunkRows \cup NoForceRows \cup AutoRows
 Init == row \in Rows
 Next == UNCHANGED row
 Spec == Init /\ [][Next]_row
